@@ -50,7 +50,7 @@ const (
 	RouteKey    = "chatid"       // session key the chat route function reads
 	ForwardMs   = 31 * 1000      // one Advance: past the 30 s forward timeout
 	clockStart  = int64(1) << 40 // virtual ms
-	waitTimeout = 20 * time.Second
+	waitTimeout = 8 * time.Second
 	WaitTimeout = waitTimeout
 	// Sentinel request ids live in [SentinelLo, SentinelHi); cases never use them.
 	SentinelLo = uint64(4000000000)
@@ -120,6 +120,7 @@ type Node struct {
 
 	logMu sync.Mutex
 	hlog  []Invocation
+	ctr   [4]int64 // issue counters, one per instance, touched only by that instance's goroutine
 
 	sessMu sync.Mutex
 	bsTab  map[int64]*backHandle
